@@ -164,7 +164,7 @@ class SegmentHarness:
     def __init__(self, A):
         self.A = A
 
-    def run(self, how, wrappers, shared_fn, segments, nloops, bdur):
+    def run(self, how, wrappers, shared_fn, segments, nloops, bdur, gc_between=False):
         A = self.A
 
         def main(s):
@@ -204,19 +204,28 @@ class SegmentHarness:
                     loop = loops[li]
                     aio.set_event_loop(loop)
 
-                    async def call(j, c):
+                    async def call(j, c, li=li):
                         if c['t']:
                             await aio.sleep(c['t'])
                         cid = f'{si}.{j}'
                         emit('call', cid, c['w'], c['key'])
-                        if how == 'deco':
-                            target = ws[c['w']]
-                        else:
-                            target = per_loop.get((li, c['w']))
+                        on = c.get('on')
+                        run_li = li if on is None else on
+
+                        async def ref_call():
+                            # (the reference batcher of a loop is made by code running on that loop)
+                            target = per_loop.get((run_li, c['w']))
                             if target is None:
-                                target = per_loop[(li, c['w'])] = A.AsyncBackgroundBatcher(fns[c['w']], **optl[c['w']])
+                                target = per_loop[(run_li, c['w'])] = A.AsyncBackgroundBatcher(fns[c['w']], **optl[c['w']])
+                            return await target(B.Arg(c['key'], cid), key=c['key'])
                         try:
-                            r = await target(B.Arg(c['key'], cid), key=c['key'])
+                            coro = ws[c['w']](B.Arg(c['key'], cid), key=c['key']) if how == 'deco' else ref_call()
+                            if on is None:
+                                r = await coro
+                            else:
+                                # the call object is made here but evaluated by another (idle) loop: it belongs to that
+                                # loop's batching
+                                r = await A.ensure_aw(coro, loops[on])
                             emit('ret', cid, 'val', r)
                         except BaseException as e:     # noqa
                             emit('ret', cid, 'other', type(e).__name__)
@@ -229,6 +238,9 @@ class SegmentHarness:
                             await aio.sleep(rest)
                     emit('segment', si, li)
                     loop.run_until_complete(seg())
+                    if gc_between:
+                        aio.set_event_loop(None)
+                        emit('gc', gc.collect() >= 0)
                 for loop in loops:
                     ts = aio.all_tasks(loop)
                     for t in ts:
@@ -464,9 +476,15 @@ class C15(Check):
                 calls.append({'t': t, 'w': rng.randrange(nwrap), 'key': rng.choice('abc')})
             segments.append((rng.randrange(nloops), calls, rng.choice([0, 0, B.BT, 8 * B.BT, 80 * B.BT])))
         bdur = rng.choice([0, B.BT / 4])
+        gc_between = rng.random() < 0.3       # a collection while every loop is idle: nothing a wrapper needs may be garbage
+        if nloops >= 2 and rng.random() < 0.25:
+            for li, calls, _ in segments:
+                for c in calls:
+                    if rng.random() < 0.4:
+                        c['on'] = rng.choice([x for x in range(nloops) if x != li])
         runs = {}
         for how in ('deco', 'ref'):
-            r = self.seg.run(how, wrappers, shared, segments, nloops, bdur)
+            r = self.seg.run(how, wrappers, shared, segments, nloops, bdur, gc_between)
             st['executions'] += 1
             if r.verdict == 'watchdog' or not r.clean:
                 res.dirty = True
@@ -490,6 +508,10 @@ class C15(Check):
             st['segment_programs_returning_to_an_open_loop'] += 1
         if shared:
             st['segment_programs_one_function_wrapped_twice'] += 1
+        if gc_between:
+            st['segment_programs_with_collections_while_idle'] += 1
+        if any('on' in c for _, calls, _ in segments for c in calls):
+            st['segment_programs_with_calls_evaluated_by_another_loop'] += 1
         res.nontrivial = revisit or shared
         if runs['deco'] != runs['ref']:
             i = next((i for i, (a, b) in enumerate(zip(runs['deco'], runs['ref'])) if a != b), min(len(runs['deco']), len(runs['ref'])))
